@@ -1,5 +1,429 @@
-//! C13 — not built yet.
-#![allow(unused)]
+//! C13 — autocovariance / autocorrelation, differencing, AR fit (Yule-Walker) and forecasting:
+//! case generation for the Coq correspondence and the failure-search oracle.
+//!
+//! The inner linear solve of `AR::fit` (`invert_matrix`) is NOT modelled here: exactly like a libm call it is
+//! recorded.  The harness recomputes the argument `AR::fit` passes to it with the crate's own public functions
+//! (`mean`, `acf`, `toeplitz`), calls the crate's public `invert_matrix` on it and puts (argument bits, result bits)
+//! into the case; `Corr/C13.v` instantiates the model's `inv` parameter by that one-entry table (the model's
+//! argument must be bit-equal to the recorded one; a miss is a disagreement).
 use crate::util::*;
-pub fn gen(_tier: &str, _seed: u64, _outdir: &str) { eprintln!("C13: gen not implemented"); std::process::exit(3); }
-pub fn oracle(_tier: &str, _seed: u64) -> (u64, Vec<Finding>) { eprintln!("C13: oracle not implemented"); std::process::exit(3); }
+use compute::linalg::{invert_matrix, toeplitz};
+use compute::statistics::mean;
+use compute::timeseries::{acf, acovf, difference, AR};
+
+// ---------------------------------------------------------------------------------------------
+// series generators (own PRNG only)
+
+/// AR coefficients phi_1..phi_q of a stationary model, from partial autocorrelations in (-lim, lim) (Levinson map)
+fn stationary_coeffs(r: &mut Rng, q: usize, lim: f64) -> Vec<f64> {
+    let mut phi: Vec<f64> = vec![];
+    for k in 0..q {
+        let pk = r.uniform(-lim, lim);
+        let mut nxt = vec![0.0; k + 1];
+        for j in 0..k { nxt[j] = phi[j] - pk * phi[k - 1 - j]; }
+        nxt[k] = pk;
+        phi = nxt;
+    }
+    phi
+}
+
+fn ar_sim(r: &mut Rng, n: usize, phi: &[f64], sigma: f64) -> Vec<f64> {
+    let q = phi.len();
+    let burn = 50 + 10 * q;
+    let mut x: Vec<f64> = vec![0.0; q];
+    for _ in 0..(n + burn) {
+        let t = x.len();
+        let mut v = sigma * r.normal();
+        for i in 0..q { v += phi[i] * x[t - 1 - i]; }
+        x.push(v);
+    }
+    x[x.len() - n..].to_vec()
+}
+
+/// one series of the property's input families; returns (family tag, data)
+fn series(r: &mut Rng, n: usize) -> (&'static str, Vec<f64>) {
+    let kind = r.below(6);
+    let q = 1 + r.below(6) as usize;
+    let phi = stationary_coeffs(r, q, 0.9);
+    let base = ar_sim(r, n, &phi, 1.0);
+    match kind {
+        0 | 1 => ("ar", base),
+        2 => { let a = r.uniform(-0.05, 0.05); let b = r.uniform(-5.0, 5.0);
+               ("ar+trend", base.iter().enumerate().map(|(i, v)| v + a * i as f64 + b).collect()) }
+        3 => { let c = r.uniform(-100.0, 100.0); let s = *r.pick(&[1e-3, 0.1, 1.0, 10.0]);
+               ("const+noise", (0..n).map(|_| c + s * r.normal()).collect()) }
+        4 => { let c = *r.pick(&[1e3, -1e4, 1e5, 1e6, -1e6]) * r.uniform(0.5, 1.0);
+               ("ar+large-offset", base.iter().map(|v| v + c).collect()) }
+        _ => { // dyadic grid: multiples of 2^-10 (sums and shifts by integers are exact)
+               ("ar-dyadic", base.iter().map(|v| (v * 1024.0).round() / 1024.0).collect()) }
+    }
+}
+
+fn specials(r: &mut Rng) -> f64 {
+    *r.pick(&[0.0, -0.0, f64::INFINITY, f64::NEG_INFINITY, f64::NAN, 5e-324, -5e-324, 2.2250738585072014e-308,
+              1.7976931348623157e308, -1.7976931348623157e308, 1e-200, 1e200, 1.0, -1.0])
+}
+
+fn fit_state(p: usize, data: &[f64]) -> Result<Vec<f64>, String> {
+    catch(|| { let mut ar = AR::new(p); ar.fit(data); let mut v = vec![ar.intercept]; v.extend_from_slice(&ar.coeffs); v })
+}
+
+/// the argument `AR::fit` hands to `invert_matrix`, recomputed with the crate's own public functions, and the
+/// outcome of the crate's `invert_matrix` on it
+fn fit_inner(p: usize, data: &[f64]) -> (Vec<f64>, Result<Vec<f64>, String>) {
+    let mu = mean(data);
+    let adjusted: Vec<f64> = data.iter().map(|x| x - mu).collect();
+    let ac: Vec<f64> = (0..=p).map(|t| acf(&adjusted, t as i32)).collect();
+    let arg = toeplitz(&ac[..p]);
+    let res = catch(|| invert_matrix(&arg));
+    (arg, res)
+}
+
+fn push_fit(cs: &mut Cases, p: usize, data: &[f64], tag: &str) -> Result<Vec<f64>, String> {
+    let e = fit_state(p, data);
+    let (arg, res) = if p == 0 { (vec![], Err("p = 0".to_string())) } else { fit_inner(p, data) };
+    let nt = data.len() >= 3 && data.iter().any(|v| *v != data[0]);
+    cs.push(app("CFit", vec![Tm::Nat(p as u64), fl(data), fl(&arg), outcome_list(&res), outcome_list(&e)]),
+            &format!("fit/{}{}", tag, if e.is_err() { "/panic" } else { "" }), nt);
+    e
+}
+
+/// one case per series: [acovf k1; acf k1; acovf k2; acf k2; ...] (the series is written once)
+fn push_lags(cs: &mut Cases, x: &[f64], lags: &[i32], tag: &str, nt: bool) {
+    let e = catch(|| lags.iter().flat_map(|&k| vec![acovf(x, k), acf(x, k)]).collect::<Vec<f64>>());
+    cs.push(app("CLags", vec![fl(x), Tm::L(lags.iter().map(|&k| Tm::Z(k as i64)).collect()), outcome_list(&e)]), tag, nt);
+}
+
+fn push_predict(cs: &mut Cases, coeffs: &[f64], mu: f64, data: &[f64], h: usize, tag: &str) {
+    let ar = AR { p: coeffs.len(), coeffs: coeffs.to_vec(), intercept: mu };
+    let e = catch(|| ar.predict(data, h));
+    cs.push(app("CPredict", vec![fl(coeffs), Tm::F(mu), fl(data), Tm::Nat(h as u64), outcome_list(&e)]),
+            &format!("predict/{}{}", tag, if e.is_err() { "/panic" } else { "" }), data.len() >= 3 && h >= 2);
+}
+fn push_predict_one(cs: &mut Cases, coeffs: &[f64], mu: f64, data: &[f64], tag: &str) {
+    let ar = AR { p: coeffs.len(), coeffs: coeffs.to_vec(), intercept: mu };
+    let e = catch(|| ar.predict_one(data)).map(|x| vec![x]);
+    let which = if data.len() >= coeffs.len() { "long" } else { "short" };
+    cs.push(app("CPredOne", vec![fl(coeffs), Tm::F(mu), fl(data), outcome_list(&e)]),
+            &format!("predict_one/{}/{}", tag, which), data.len() >= 1 && coeffs.len() >= 2);
+}
+
+pub fn gen(tier: &str, seed: u64, outdir: &str) {
+    let mut r = Rng::new(seed ^ 0xC13);
+    let mut cs = Cases::new("C13");
+    let thorough = tier == "thorough";
+
+    // 1. acovf / acf: every length 0..=40 (all residues mod 8 of the unrolled mean), lags around 0, at and beyond the length
+    for n in 0..=40usize {
+        let reps = if thorough { 16 } else { 2 };
+        for _ in 0..reps {
+            let x: Vec<f64> = if n % 5 == 4 { (0..n).map(|_| r.small_int(9)).collect() } else { (0..n).map(|_| r.uniform(-4.0, 4.0)).collect() };
+            let mut lags: Vec<i32> = vec![0, 1, -1, 2, -3, n as i32 - 1, -(n as i32) + 1, n as i32, -(n as i32), n as i32 + 1, 50, -50];
+            lags.push(r.range(-50, 50) as i32); lags.push(r.range(-(n as i64), n as i64) as i32);
+            lags.sort(); lags.dedup();
+            push_lags(&mut cs, &x, &lags, "acovf+acf/len0-40", n >= 3);
+        }
+    }
+    // 2. the property's series families, lags -50..50
+    let nser = if thorough { 1000 } else { 48 };
+    for it in 0..nser {
+        let n = if it % 12 == 11 { if thorough { 5000 } else { 1200 } } else { 10 + r.below(if thorough { 600 } else { 150 }) as usize };
+        let (fam, x) = series(&mut r, n);
+        let nl = if thorough { 12 } else { 6 };
+        let lags: Vec<i32> = (0..nl).map(|j| if j == 0 { 0 } else { r.range(-50, 50) as i32 }).collect();
+        push_lags(&mut cs, &x, &lags, &format!("acovf+acf/{}", fam), true);
+    }
+    // 3. special values (+-0, +-inf, NaN, subnormals, huge), constant series (zero variance), extreme lags
+    let nsp = if thorough { 2400 } else { 120 };
+    for it in 0..nsp {
+        let n = 1 + r.below(20) as usize;
+        let mut x: Vec<f64> = (0..n).map(|_| r.uniform(-2.0, 2.0)).collect();
+        match it % 4 {
+            0 => { let c = specials(&mut r); for v in x.iter_mut() { *v = c; } }            // constant series
+            1 => { let i = r.below(n as u64) as usize; x[i] = specials(&mut r); }
+            2 => { for v in x.iter_mut() { if r.coin(0.4) { *v = specials(&mut r); } } }
+            _ => { for v in x.iter_mut() { *v *= 1e-310; } }                                    // subnormal range
+        }
+        let k = match it % 7 { 0 => i32::MAX, 1 => i32::MIN + 1, 2 => 0, _ => r.range(-(n as i64) - 2, n as i64 + 2) as i32 };
+        push_lags(&mut cs, &x, &[k, -k, 0], "acovf+acf/special", true);
+    }
+    // 4. difference: every length 0..=20 (the empty vector panics), integer cumulative sums, special values
+    for n in 0..=20usize {
+        for rep in 0..(if thorough { 4 } else { 2 }) {
+            let x: Vec<f64> = (0..n).map(|_| if rep == 1 && r.coin(0.2) { specials(&mut r) } else if rep == 0 { r.small_int(50) } else { r.uniform(-9.0, 9.0) }).collect();
+            let e = catch(|| difference(x.clone()));
+            cs.push(app("CDiff", vec![fl(&x), outcome_list(&e)]), if e.is_err() { "difference/panic" } else { "difference" }, n >= 3);
+        }
+    }
+    // 5. AR::new(p).fit(data): orders 0 (rejected) and 1..8 on the property's families; short and degenerate data
+    let nfit = if thorough { 1600 } else { 96 };
+    let mut fitted: Vec<(Vec<f64>, Vec<f64>)> = vec![];   // (data, state)
+    for it in 0..nfit {
+        let p = 1 + (it % 8) as usize;
+        let n = if it % 20 == 19 { if thorough { 5000 } else { 1000 } } else { 10 + r.below(if thorough { 400 } else { 120 }) as usize };
+        let (fam, x) = series(&mut r, n);
+        if let Ok(st) = push_fit(&mut cs, p, &x, fam) { fitted.push((x, st)); }
+    }
+    for p in 0..=9usize {   // orders against short data: lags reach and pass the length
+        for n in [0usize, 1, 2, 3, 5, 8, 9, 12] {
+            if p == 0 && n > 2 { continue; }
+            let x: Vec<f64> = (0..n).map(|_| r.uniform(-3.0, 3.0)).collect();
+            let _ = push_fit(&mut cs, p, &x, "short");
+        }
+    }
+    for it in 0..(if thorough { 40 } else { 10 }) {   // constant / special-valued data: NaN autocorrelations into the inner solve
+        let n = 4 + r.below(12) as usize; let p = 1 + r.below(3) as usize;
+        let mut x: Vec<f64> = (0..n).map(|_| r.uniform(-2.0, 2.0)).collect();
+        if it % 2 == 0 { let c = r.small_int(5); for v in x.iter_mut() { *v = c; } } else { let i = r.below(n as u64) as usize; x[i] = specials(&mut r); }
+        let _ = push_fit(&mut cs, p, &x, "degenerate");
+    }
+    // 6. forecasting with the fitted states (coeffs as stored, i.e. reversed; intercept = mean)
+    for (i, (x, st)) in fitted.iter().enumerate() {
+        let (mu, co) = (st[0], &st[1..]);
+        let h = if i % 16 == 15 { 1000 } else if i % 4 == 3 { 100 + r.below(150) as usize } else { 1 + r.below(30) as usize };
+        // the last 3p values carry everything predict reads; keep the case small but also pass full histories sometimes
+        let keep = if i % 5 == 0 { x.len().min(400) } else { (3 * co.len()).min(x.len()) };
+        let hist = &x[x.len() - keep..];
+        push_predict(&mut cs, co, mu, hist, h, "fitted");
+        push_predict_one(&mut cs, co, mu, hist, "fitted");
+        let short = &hist[hist.len() - r.below(co.len() as u64) as usize..];
+        push_predict_one(&mut cs, co, mu, short, "fitted");
+    }
+    // 7. forecasting with hand-made states: orders 1..17 (p >= 8 reaches the unrolled part of dot), every history length
+    //    around p (shorter: predict panics, predict_one uses the short branch), horizons 0.., special values
+    for p in 1..=17usize {
+        let co: Vec<f64> = if p <= 6 { let mut c = stationary_coeffs(&mut r, p, 0.9); c.reverse(); c } else { (0..p).map(|_| r.uniform(-0.2, 0.2)).collect() };
+        let mu = if p % 3 == 0 { 0.0 } else { r.uniform(-50.0, 50.0) };
+        for n in [0usize, 1, p.saturating_sub(1), p, p + 1, p + 9] {
+            let x: Vec<f64> = (0..n).map(|_| mu + r.uniform(-3.0, 3.0)).collect();
+            push_predict(&mut cs, &co, mu, &x, r.below(12) as usize, "handmade");
+            push_predict_one(&mut cs, &co, mu, &x, "handmade");
+        }
+        if p <= 8 || thorough {
+            let x: Vec<f64> = (0..p + 3).map(|_| if r.coin(0.15) { specials(&mut r) } else { r.uniform(-3.0, 3.0) }).collect();
+            push_predict(&mut cs, &co, specials(&mut r), &x, 5, "special");
+            push_predict_one(&mut cs, &co, mu, &x, "special");
+        }
+    }
+    push_predict(&mut cs, &[], 1.5, &[1.0, 2.0], 3, "handmade");   // empty coefficient vector (public fields allow it)
+    push_predict_one(&mut cs, &[], 1.5, &[1.0, 2.0], "handmade");
+    if thorough {
+        for _ in 0..6 { let p = 1 + r.below(6) as usize; let mut co = stationary_coeffs(&mut r, p, 0.95); co.reverse();
+            let x: Vec<f64> = (0..p + 5).map(|_| 1e6 + r.normal()).collect();
+            push_predict(&mut cs, &co, 1e6, &x, 1000, "horizon1000"); }
+    }
+    cs.write(outdir, if thorough { 50 } else { 100 },
+             "acovf/acf on every length 0..=40 x lags {0,+-1,2,-3,+-(n-1),+-n,n+1,+-50,random}, on the property's series families (AR(1..6) simulations, trends, constant+noise, offsets to 1e6, dyadic grid; lengths 10..5000) with lags -50..50, on special values (+-0, +-inf, NaN, subnormals, constant series, lags i32::MAX / i32::MIN+1); difference on every length 0..=20 (empty panics); AR::new(p).fit for p = 0 (panic) and 1..9 on the families, on short data (length <= p) and on degenerate data, with the inner invert_matrix call recorded (argument bits, result bits or panic); predict / predict_one on the fitted states (horizons 1..1000) and on hand-made states of order 0..17 with history lengths around p (short histories: predict panics, predict_one takes its short branch) and special values; non-trivial = length >= 3 and non-constant data (lag inside the series; horizon >= 2 for predict; order >= 2 for predict_one); distinct by hash of the case term");
+}
+
+// ---------------------------------------------------------------------------------------------
+// failure-search oracle: the property's statement against the implementation only
+
+const EPS: f64 = f64::EPSILON;
+
+/// Neumaier compensated sum (reference; error ~ eps*|sum| + n*eps^2*sum|x|)
+fn csum(it: impl Iterator<Item = f64>) -> f64 {
+    let (mut s, mut c) = (0.0f64, 0.0f64);
+    for v in it { let t = s + v; if s.abs() >= v.abs() { c += (s - t) + v; } else { c += (v - t) + s; } s = t; }
+    s + c
+}
+fn ref_mean(x: &[f64]) -> f64 { csum(x.iter().copied()) / x.len() as f64 }
+/// biased autocovariance by its definition (compensated), and a forward error bound valid for ANY evaluation order
+/// of the definition in binary64: 4 (n+16) eps (max|x| + |mean|)^2
+fn ref_acov(x: &[f64], k: i64) -> (f64, f64) {
+    let n = x.len(); let ka = k.unsigned_abs() as usize; let m = ref_mean(x);
+    let s = if ka >= n { 0.0 } else { csum((ka..n).map(|i| (x[i] - m) * (x[i - ka] - m))) };
+    let a = x.iter().fold(0.0f64, |a, v| a.max(v.abs())) + m.abs();
+    (s / n as f64, 4.0 * (n as f64 + 16.0) * EPS * a * a)
+}
+
+/// Gauss-Jordan inverse with partial pivoting (independent of the crate); None when a pivot vanishes
+fn ref_inverse(a: &[f64], n: usize) -> Option<Vec<f64>> {
+    let mut m: Vec<Vec<f64>> = (0..n).map(|i| { let mut row = a[i * n..(i + 1) * n].to_vec(); row.extend((0..n).map(|j| if i == j { 1.0 } else { 0.0 })); row }).collect();
+    for c in 0..n {
+        let piv = (c..n).max_by(|&i, &j| m[i][c].abs().partial_cmp(&m[j][c].abs()).unwrap_or(std::cmp::Ordering::Equal))?;
+        if !(m[piv][c].abs() > 1e-300) { return None; }
+        m.swap(c, piv);
+        let d = m[c][c]; for v in m[c].iter_mut() { *v /= d; }
+        for i in 0..n { if i != c { let f = m[i][c]; if f != 0.0 { for j in 0..2 * n { let t = m[c][j]; m[i][j] -= f * t; } } } }
+    }
+    Some(m.iter().flat_map(|row| row[n..].to_vec()).collect())
+}
+fn norm_inf(a: &[f64], n: usize) -> f64 { (0..n).map(|i| a[i * n..(i + 1) * n].iter().map(|v| v.abs()).sum::<f64>()).fold(0.0, f64::max) }
+
+fn show(x: &[f64]) -> String { if x.len() <= 64 { json_floats(x) } else { format!("{} (length {}; first 64 shown, regenerate from the seed for the rest)", json_floats(&x[..64]), x.len()) } }
+
+pub fn oracle(tier: &str, seed: u64) -> (u64, Vec<Finding>) {
+    let mut r = Rng::new(seed ^ 0x0C13_0C13);
+    let mut out: Vec<Finding> = vec![]; let mut tried = 0u64;
+    let iters = if tier == "thorough" { 12000 } else { 600 };
+    let mut add = |out: &mut Vec<Finding>, class: &str, what: String, input: String| {
+        if out.iter().filter(|f| f.class == class).count() < 3 { out.push(Finding { class: class.into(), what, input }); }
+    };
+    for it in 0..iters {
+        // ---------------- series of the property's quantifier
+        let n = if it % 25 == 24 { 5000 } else if it % 5 == 4 { 10 + r.below(2000) as usize } else { 10 + r.below(300) as usize };
+        let (fam, x) = series(&mut r, n);
+        let xs = show(&x);
+        let scale = x.iter().fold(0.0f64, |a, v| a.max(v.abs())) + 1.0;
+        // ---- acovf / acf against the biased-estimator definitions; evenness; lag 0; bound; lag beyond the length
+        let (g0, t0) = ref_acov(&x, 0);
+        let mut lags: Vec<i64> = vec![0, 1, -1, 50, -50, n as i64, n as i64 + 3];
+        for _ in 0..4 { lags.push(r.range(-50, 50)); }
+        for &k in &lags {
+            let k32 = k as i32;
+            let input = format!("family={} lag={} series={}", fam, k, xs);
+            crumb(&input);
+            let (gk, tk) = ref_acov(&x, k);
+            let (cv, cvn) = (catch(|| acovf(&x, k32)), catch(|| acovf(&x, -k32)));
+            let (cr, crn) = (catch(|| acf(&x, k32)), catch(|| acf(&x, -k32)));
+            tried += 4;
+            match (&cv, &cvn, &cr, &crn) {
+                (Ok(cv), Ok(cvn), Ok(cr), Ok(crn)) => {
+                    if !((cv - gk).abs() <= tk) { add(&mut out, "acovf:not-biased-estimator", format!("acovf = {:e}, definition (1/n) sum_(i>=|k|) (x_i-m)(x_(i-|k|)-m) = {:e} (bound {:e})", cv, gk, tk), input.clone()); }
+                    if cv.to_bits() != cvn.to_bits() { add(&mut out, "acovf:not-even", format!("acovf(k) = {:e} but acovf(-k) = {:e}", cv, cvn), input.clone()); }
+                    if cr.to_bits() != crn.to_bits() && !(cr.is_nan() && crn.is_nan()) { add(&mut out, "acf:not-even", format!("acf(k) = {:e} but acf(-k) = {:e}", cr, crn), input.clone()); }
+                    if g0 > 4.0 * t0 {   // variance safely nonzero
+                        let rk = gk / g0; let tr = (tk + rk.abs() * t0) / (g0 - t0) + 8.0 * EPS;
+                        if !((cr - rk).abs() <= tr) { add(&mut out, "acf:not-acov-ratio", format!("acf = {:e}, definition acov(k)/acov(0) = {:e} (bound {:e})", cr, rk, tr), input.clone()); }
+                        if k == 0 && !((cr - 1.0).abs() <= 8.0 * EPS) { add(&mut out, "acf:lag0-not-1", format!("acf(x, 0) = {:e}", cr), input.clone()); }
+                        if !(cr.abs() <= 1.0 + tr.min(1e-3)) { add(&mut out, "acf:exceeds-1", format!("|acf| = {:e} > 1", cr.abs()), input.clone()); }
+                        if k.unsigned_abs() as usize >= n && !(*cr == 0.0 && *cv == 0.0) { add(&mut out, "acf:lag-beyond-length-nonzero", format!("lag {} >= length {}: acovf = {:e}, acf = {:e}, the empty sum is 0", k, n, cv, cr), input.clone()); }
+                    }
+                }
+                _ => add(&mut out, "acf:panics", "acovf/acf panicked on a valid series and lag".into(), input.clone()),
+            }
+        }
+        // ---- differencing inverts cumulative summation (exact on integer data; to rounding otherwise)
+        {
+            let ints: Vec<f64> = (0..n.min(200)).map(|_| r.small_int(1000)).collect();
+            for (exact, inc) in [(true, &ints), (false, &x)] {
+                let x0 = if exact { r.small_int(1000) } else { r.uniform(-5.0, 5.0) };
+                let mut c = vec![x0]; for v in inc.iter() { let l = *c.last().unwrap(); c.push(l + v); }
+                let cmax = c.iter().fold(0.0f64, |a, v| a.max(v.abs()));
+                let input = format!("difference(cumsum) x0={:e} increments={}", x0, show(inc));
+                crumb(&input); tried += 1;
+                match catch(|| difference(c.clone())) {
+                    Ok(d) => { let ok = d.len() == inc.len() && d.iter().zip(inc.iter()).all(|(a, b)| if exact { a == b } else { (a - b).abs() <= 2.0 * EPS * cmax });
+                               if !ok { add(&mut out, "difference:not-inverse-of-cumsum", format!("difference(cumsum(x0, x)) returned {} values, first {:?}; expected x", d.len(), &d[..d.len().min(4)]), input); } }
+                    Err(e) => add(&mut out, "difference:panics", format!("panicked: {}", e), input),
+                }
+            }
+        }
+        // ---- AR fit: Yule-Walker equations, intercept = mean
+        let p = 1 + r.below(8) as usize;
+        let input = format!("family={} order={} series={}", fam, p, xs);
+        crumb(&input); tried += 1;
+        let mut ar = AR::new(p);
+        if catch(AssertUnwindSafeMut(&mut ar, &x)).is_err() { add(&mut out, "fit:panics", "AR::fit panicked on a valid series".into(), input.clone()); continue; }
+        let m = ref_mean(&x);
+        if !((ar.intercept - m).abs() <= (n as f64 + 4.0) * EPS * scale) { add(&mut out, "fit:intercept-not-mean", format!("intercept = {:e}, series mean = {:e}", ar.intercept, m), input.clone()); }
+        if ar.coeffs.len() != p { add(&mut out, "fit:wrong-number-of-coefficients", format!("{} coefficients for order {}", ar.coeffs.len(), p), input.clone()); continue; }
+        // autocorrelations by definition (reference), Toeplitz system, residual scaled by the conditioning
+        let rho: Vec<f64> = (0..=p as i64).map(|t| ref_acov(&x, t).0 / g0).collect();
+        let a: Vec<f64> = (0..p * p).map(|q| rho[(q / p).abs_diff(q % p)]).collect();
+        let phi: Vec<f64> = ar.coeffs.iter().rev().copied().collect();   // phi_1..phi_p
+        let kappa = match ref_inverse(&a, p) { Some(ai) => norm_inf(&a, p) * norm_inf(&ai, p), None => f64::INFINITY };
+        let well = g0 > 1e3 * t0 && kappa < 1e6 && phi.iter().all(|v| v.is_finite());
+        if well {
+            let rho_err = 4.0 * (t0 + t0) / (g0 - t0) + 8.0 * EPS;   // error of each reference/implementation autocorrelation
+            let pn = phi.iter().fold(0.0f64, |a, v| a.max(v.abs()));
+            for i in 0..p {
+                let lhs = csum((0..p).map(|j| a[i * p + j] * phi[j]));
+                let tol = 64.0 * p as f64 * kappa * (EPS + rho_err) * (norm_inf(&a, p) * pn + 1.0);
+                if !((lhs - rho[i + 1]).abs() <= tol) { add(&mut out, "fit:yule-walker-residual", format!("row {}: sum_j r(|i-j|) phi_j = {:e}, r({}) = {:e} (cond {:e}, bound {:e}); phi = {:?}", i, lhs, i + 1, rho[i + 1], kappa, tol, phi), input.clone()); break; }
+            }
+        }
+        // ---- forecasts: mean + AR recursion on the mean-centred history (reference recursion with running error bound)
+        let h = if it % 10 == 9 { 1000 } else { 1 + r.below(60) as usize };
+        tried += 2;
+        crumb(&format!("{} horizon={}", input, h));
+        let fc = catch(|| ar.predict(&x, h));
+        let f1 = catch(|| ar.predict_one(&x));
+        let sumabs: f64 = phi.iter().map(|v| v.abs()).sum();
+        if let (Ok(fc), true) = (&fc, phi.iter().all(|v| v.is_finite())) {
+            if fc.len() != h { add(&mut out, "forecast:wrong-length", format!("{} forecasts for horizon {}", fc.len(), h), input.clone()); }
+            else {
+                let mu = ar.intercept;
+                let mut w: Vec<f64> = x[n - p..].iter().map(|v| v - mu).collect();   // centred history, oldest first
+                let mut err: Vec<f64> = w.iter().map(|v| EPS * (v.abs() + mu.abs())).collect();
+                for (s, got) in fc.iter().enumerate() {
+                    let t = w.len();
+                    let z = csum((0..p).map(|i| phi[i] * w[t - 1 - i]));
+                    let za: f64 = (0..p).map(|i| phi[i].abs() * w[t - 1 - i].abs()).sum();
+                    let e: f64 = (0..p).map(|i| phi[i].abs() * err[t - 1 - i]).sum::<f64>() + (p as f64 + 4.0) * EPS * (za + mu.abs()) * 2.0;
+                    if !((got - (mu + z)).abs() <= 4.0 * e + 1e-300) {
+                        add(&mut out, "forecast:not-centred-recursion", format!("forecast {} = {:e}, mean + AR recursion on the mean-centred history = {:e} (bound {:e}); intercept {:e}, phi = {:?}", s + 1, got, mu + z, 4.0 * e, mu, phi), format!("{} horizon={}", input, h));
+                        break;
+                    }
+                    w.push(z); err.push(e);
+                    if !e.is_finite() || e > 1e-3 * scale { break; }
+                }
+                if let Ok(f1) = &f1 {
+                    if !((f1 - fc[0]).abs() <= 1e-9 * scale) { add(&mut out, "forecast:predict_one-differs-from-predict", format!("predict_one(data) = {:e} but predict(data, 1)[0] = {:e}", f1, fc[0]), input.clone()); }
+                }
+                // stationary fit: forecasts converge to the series mean (contraction bound when sum|phi| < 1)
+                if h == 1000 && sumabs < 0.999 {
+                    let wmax = x[n - p..].iter().fold(0.0f64, |a, v| a.max((v - m).abs()));
+                    let bound = sumabs.powi((h / p) as i32) * wmax * 1.001 + 1e-9 * scale;
+                    if !((fc[h - 1] - m).abs() <= bound) { add(&mut out, "forecast:does-not-converge-to-mean", format!("forecast 1000 = {:e}, series mean {:e}, contraction bound {:e} (sum|phi| = {:e})", fc[h - 1], m, bound, sumabs), input.clone()); }
+                }
+            }
+        } else if fc.is_err() { add(&mut out, "forecast:panics", "predict panicked with a history at least as long as the order".into(), input.clone()); }
+        // ---- two-run relation: adding a constant c to the series leaves the coefficients and adds c to every forecast
+        if well {
+            let c = if fam == "ar-dyadic" { r.range(-4096, 4096) as f64 } else { *r.pick(&[1.0, -7.5, 100.0, 1e3, -1e4, 1e6]) * r.uniform(0.5, 1.0) };
+            let y: Vec<f64> = x.iter().map(|v| v + c).collect();
+            let input2 = format!("{} shift={:e} horizon={}", input, c, h.min(50));
+            crumb(&input2); tried += 1;
+            let mut ar2 = AR::new(p);
+            if catch(AssertUnwindSafeMut(&mut ar2, &y)).is_ok() {
+                let big = scale + c.abs();
+                // data perturbation by rounding x + c: eps*big per point relative to the series' own spread sqrt(g0)
+                let dphi = 1e3 * kappa * (EPS * big / g0.sqrt() + rho_err_of(t0, g0)) + 1e-12;
+                if ar.coeffs.iter().zip(&ar2.coeffs).any(|(a, b)| !((a - b).abs() <= dphi * (1.0 + a.abs()))) {
+                    add(&mut out, "fit:coefficients-change-under-shift", format!("coeffs {:?} became {:?} after adding {:e} to every point (bound {:e})", ar.coeffs, ar2.coeffs, c, dphi), input2.clone());
+                }
+                let hh = h.min(50);
+                if let (Ok(f), Ok(g)) = (catch(|| ar.predict(&x, hh)), catch(|| ar2.predict(&y, hh))) {
+                    let tol = 1e-7 * big * (1.0 + kappa * 1e-3) + 50.0 * dphi * scale;
+                    for s in 0..hh.min(f.len()).min(g.len()) {
+                        if !((g[s] - f[s] - c).abs() <= tol) {
+                            add(&mut out, "forecast:not-shift-equivariant", format!("forecast {}: {:e} for the series, {:e} for the series + {:e}: difference {:e} instead of {:e} (bound {:e}); phi = {:?}", s + 1, f[s], g[s], c, g[s] - f[s], c, tol, phi), input2.clone());
+                            break;
+                        }
+                    }
+                }
+                if let (Ok(f), Ok(g)) = (catch(|| ar.predict_one(&x)), catch(|| ar2.predict_one(&y))) {
+                    let tol = 1e-7 * big * (1.0 + kappa * 1e-3) + 50.0 * dphi * scale;
+                    if !((g - f - c).abs() <= tol) { add(&mut out, "forecast:predict_one-not-shift-equivariant", format!("predict_one: {:e} for the series, {:e} for the series + {:e}: difference {:e} instead of {:e}", f, g, c, g - f, c), input2.clone()); }
+                }
+            }
+        }
+        // ---- a history shorter than the order: the missing older observations count as "at the mean"
+        if p >= 2 && phi.iter().all(|v| v.is_finite()) {
+            let keep = 1 + r.below(p as u64 - 1) as usize;   // 1..p-1 most recent observations
+            let short = &x[n - keep..];
+            let mut padded = vec![ar.intercept; p - keep]; padded.extend_from_slice(short);
+            let input3 = format!("{} short_history={}", input, json_floats(short));
+            crumb(&input3); tried += 1;
+            if let (Ok(a), Ok(b)) = (catch(|| ar.predict_one(short)), catch(|| ar.predict_one(&padded))) {
+                if !((a - b).abs() <= 1e-9 * scale * (1.0 + sumabs)) { add(&mut out, "predict_one:short-history-misaligned", format!("predict_one on the last {} observations = {:e}, but on the same observations preceded by {} values equal to the intercept = {:e} (the most recent observation must meet phi_1); stored coeffs {:?}", keep, a, p - keep, b, ar.coeffs), input3); }
+            } else { add(&mut out, "predict_one:short-history-panics", "predict_one panicked on a short history".into(), input3); }
+        }
+        if out.len() > 30 { break; }
+    }
+    // ---------------- rejection: order 0, history shorter than the order (predict), empty vector (difference)
+    tried += 3;
+    if catch(|| AR::new(0)).is_ok() { add(&mut out, "new:order-0-accepted", "AR::new(0) returned a model".into(), "AR::new(0)".into()); }
+    { let ar = AR { p: 3, coeffs: vec![0.1, 0.2, 0.3], intercept: 0.0 };
+      if let Ok(v) = catch(|| ar.predict(&[1.0, 2.0], 2)) { add(&mut out, "forecast:short-history-accepted", format!("predict with 2 observations for order 3 returned {:?}", v), "AR{coeffs:[0.1,0.2,0.3],intercept:0}.predict([1,2],2)".into()); } }
+    if let Ok(v) = catch(|| difference(vec![])) { add(&mut out, "difference:empty-accepted", format!("difference(vec![]) returned {:?}", v), "difference(vec![])".into()); }
+    (tried, out)
+}
+
+fn rho_err_of(t0: f64, g0: f64) -> f64 { 8.0 * t0 / (g0 - t0) + 8.0 * EPS }
+
+/// `ar.fit(data)` as a closure that `catch` accepts (the &mut borrow crosses the unwind boundary; on a panic the model is dropped by the caller)
+#[allow(non_snake_case)]
+fn AssertUnwindSafeMut<'a>(ar: &'a mut AR, data: &'a [f64]) -> impl FnOnce() + 'a { move || { ar.fit(data); } }
